@@ -100,7 +100,36 @@ def mono_pow(m, q: Fraction):
     return tuple((g, e * q) for g, e in m if e * q != 0)
 
 
+def p_norm(p: dict) -> dict:
+    """Bring constant generators ('k', prime) to exponents in [0, 1): the integer part of the
+    exponent is moved into the rational coefficient (2^(-1/2) = 1/2 * 2^(1/2))."""
+    if not any(g[0] == "k" and not (0 < e < 1) for m in p for g, e in m):
+        return p
+    out = {}
+    for m, c in p.items():
+        coeff = c
+        gens = []
+        for g, e in m:
+            if g[0] == "k":
+                whole = e.numerator // e.denominator
+                frac = e - whole
+                if whole:
+                    coeff *= Fraction(g[1]) ** whole
+                if frac:
+                    gens.append((g, frac))
+            else:
+                gens.append((g, e))
+        mm = tuple(sorted(gens, key=lambda ge: _gkey(ge[0])))
+        v = out.get(mm, ZERO) + coeff
+        if v == 0:
+            out.pop(mm, None)
+        else:
+            out[mm] = v
+    return out
+
+
 def pkey(p: dict):
+    p = p_norm(p)
     return tuple(sorted(p.items(), key=lambda kv: repr(kv[0])))
 
 
@@ -158,6 +187,7 @@ def gen_positive(g) -> bool:
 
 def sign_of(p: dict):
     """'+', '-', '0' or None."""
+    p = p_norm(p)
     if not p:
         return "0"
     signs = set()
@@ -249,6 +279,8 @@ class Canon:
             return {mono_pow(m, Fraction(-1)): 1 / c}
         m, rest = factor_monomial(p)
         c0, prim = split_content(rest)
+        if c0 < 0:
+            c0, prim = -c0, p_neg(prim)     # p = |c0| * m * prim, prim keeps the sign of p (same convention as ln / pow_rat)
         if sign_of(p) is None:
             self.obligations.add((pkey(prim), "!=0"))
         return {mono_mul(mono_pow(m, Fraction(-1)), ((("pw", pkey(prim)), Fraction(-1)),)): 1 / c0}
@@ -260,6 +292,8 @@ class Canon:
                 return p_const(1)
             if n < 0:
                 return self.inv(self.pow_rat(p, Fraction(-n)))
+            if not p:
+                return {}
             if len(p) == 1:
                 (m, c), = p.items()
                 return {mono_pow(m, q): c ** n}
@@ -313,6 +347,8 @@ class Canon:
             return {g[1]: ONE}
         if k == "a":
             return p_atom(("ln", g))
+        if k == "pw":
+            return p_atom(("ln", ("P", g[1])))
         return p_atom(("ln", g))
 
     def ln_const(self, c: Fraction) -> dict:
@@ -333,6 +369,16 @@ class Canon:
             for g, e in m:
                 out = p_add(out, p_scale(self.ln_gen(g), e))
             return out
+        if s is None and len(p) == 1:
+            (m1, c1), = p.items()
+            if c1 > 0 and all(gen_positive(g) or g[0] == "pw" for g, _e in m1):
+                # ln(c * prod g^e) with opaque polynomial powers: valid when each base is positive
+                out = self.ln_const(c1)
+                for g, e in m1:
+                    if g[0] == "pw":
+                        self.obligations.add((g[1], ">0"))
+                    out = p_add(out, p_scale(self.ln_gen(g), e))
+                return out
         if s is None:
             self.obligations.add((pkey(p), ">0"))
         m, rest = factor_monomial(p)
@@ -451,8 +497,16 @@ class Canon:
 def canon(term, signs: dict):
     """-> (poly, obligations).  Raises Undefined / TooHard."""
     c = Canon(signs)
-    p = c.canon(term)
+    p = p_norm(c.canon(term))
     return p, c.obligations
+
+
+def has_head(term, head: str) -> bool:
+    if not isinstance(term, tuple) or not term:
+        return False
+    if term[0] == head:
+        return True
+    return any(has_head(x, head) for x in term[1:] if isinstance(x, tuple))
 
 
 def holes_of(term, acc=None) -> list:
@@ -538,6 +592,8 @@ def numeval(t, env: dict) -> float:
         return math.cos(numeval(t[1], env))
     if h == "abs":
         return abs(numeval(t[1], env))
+    if h == "round":
+        return float(round(numeval(t[1], env)))
     raise TooHard(f"unknown term head {h!r}")
 
 
